@@ -2,3 +2,6 @@ pub mod clipath;
 pub mod codec;
 pub mod glob;
 pub mod lines;
+pub mod identity;
+pub mod message;
+pub mod simple;
